@@ -1,92 +1,295 @@
 //go:build verif
 
+// Harness for the settings loader (property C29): config/cmdenv.go, config/configLoadHelpers.go,
+// config/file_config.go, config/validate.go.
+//
+// The table of settings is enumerated by reflection from the real main-config struct and the real
+// CmdEnv struct on every run (table.go): every leaf field that carries a `cmdenv` tag or has a
+// string type (string, []string, map[string]string).  A case runs every setting of the table once,
+// all with the same source combination (which of flag / environment variable / config file 1 /
+// config file 2 mention the setting; the 16 combinations are taken in turn by successive cases),
+// each as one complete start-up of the real loader: real temp files, real os.Setenv, the real
+// go-flags parse of a synthetic argv, config.NewConfig; then `len` string-level expansion ops.
+//
+// ops and observations: see lean/Oracle/Settings.lean.
 package main
 
 import (
 	"fmt"
 	"os"
+	"sort"
+	"strconv"
 	"strings"
 
+	"github.com/honeycombio/refinery/config"
 	kit "github.com/honeycombio/refinery/internal/verifkit"
 )
 
 type comp struct{}
 
-func (comp) Gen(r *kit.Rng, maxLen int, tier string) kit.Case { return kit.Case{} }
-func (comp) NewCase(h []string) kit.Runner                  { return nil }
+var (
+	table    []setting
+	byPath   map[string]*setting
+	meta     *config.Metadata
+	genCount int
+)
 
-func sp(s string) *string { return &s }
-
-func probe() {
-	tab := buildTable()
-	find := func(p string) *setting {
-		for i := range tab {
-			if tab[i].Path == p {
-				return &tab[i]
+func ensureTable() {
+	if table != nil {
+		return
+	}
+	table = buildTable()
+	byPath = map[string]*setting{}
+	for i := range table {
+		s := &table[i]
+		byPath[s.Path] = s
+		for _, o := range s.Opts {
+			if len(o.Delim) > 1 {
+				panic("env-delim longer than one character is outside the model: " + o.Name)
+			}
+			if (s.Kind == "strs" || s.Kind == "smap") && o.Delim == "" {
+				// applyCmdEnvTags would report a programming error; the model has that outcome, the
+				// generator has no values for it
+				fmt.Fprintln(os.Stderr, "note: list/map option without env-delim:", o.Name)
 			}
 		}
-		panic(p)
 	}
-	show := func(name string, q loadReq) {
-		r := runLoad(q)
-		fmt.Fprintf(os.Stderr, "%-40s class=%s eff=%s echoes=%q other=%q getter=%s err=%s\n", name, r.class, r.eff.tok(), r.echoes, r.other, r.getter, r.errText)
+	var err error
+	meta, err = config.LoadConfigMetadata()
+	if err != nil {
+		panic(err)
 	}
-	ch := find("RedisPeerManagement.ClusterHosts")
-	show("slice env a,b", loadReq{s: ch, envs: []*string{sp("a:1,b:2")}})
-	show("slice flag a,b", loadReq{s: ch, flags: [][]string{{"a:1,b:2"}}})
-	show("slice flag a b", loadReq{s: ch, flags: [][]string{{"a:1", "b:2"}}})
-	show("slice flag + env", loadReq{s: ch, flags: [][]string{{"a:1"}}, envs: []*string{sp("e:1,e:2")}})
-	show("slice env validate", loadReq{s: ch, validate: true, envs: []*string{sp("a:1,b:2")}})
-	show("slice files", loadReq{s: ch, files: [2]val{listVal([]string{"x:1", "y:1"}), listVal([]string{"z:1"})}})
-	show("slice file []", loadReq{s: ch, files: [2]val{listVal([]string{"x:1", "y:1"}), listVal([]string{})}})
-	tn := find("IDFields.TraceNames")
-	show("tracenames file []", loadReq{s: tn, files: [2]val{absent, listVal([]string{})}})
-	show("tracenames none", loadReq{s: tn})
-	rh := find("RedisPeerManagement.Host")
-	show("str flag empty masks env", loadReq{s: rh, eqForm: true, flags: [][]string{{""}}, envs: []*string{sp("envhost:1")}, files: [2]val{strVal("f1:1"), absent}})
-	show("str flag twice", loadReq{s: rh, flags: [][]string{{"a:1", "b:1"}}})
-	show("str env empty", loadReq{s: rh, envs: []*string{sp("")}, files: [2]val{strVal("f1:1"), absent}})
-	la := find("Network.ListenAddr")
-	show("file2 empty overrides file1", loadReq{s: la, files: [2]val{strVal("1.2.3.4:80"), strVal("")}})
-	show("validate: bad file, good env", loadReq{s: la, validate: true, envs: []*string{sp("0.0.0.0:9999")}, files: [2]val{strVal("junk"), absent}})
-	show("validate: good file, bad env", loadReq{s: la, validate: true, envs: []*string{sp("junk")}, files: [2]val{strVal("0.0.0.0:9999"), absent}})
-	show("validate: expand ok", loadReq{s: la, validate: true, files: [2]val{strVal("${VS_A}"), absent}, vars: map[string]string{"VS_A": "0.0.0.0:7777"}})
-	show("validate: expand unset", loadReq{s: la, validate: true, files: [2]val{strVal("${VS_A}"), absent}})
-	show("flag expanded", loadReq{s: la, flags: [][]string{{"${VS_A}"}}, vars: map[string]string{"VS_A": "0.0.0.0:7777"}})
-	hk := find("HoneycombLogger.APIKey")
-	show("apikey empty validate", loadReq{s: hk, validate: true})
-	show("apikey bad", loadReq{s: hk, validate: true, files: [2]val{strVal("short-f1"), absent}})
-	show("apikey generic flag vs specific env", loadReq{s: hk, flags: [][]string{nil, {"genericflag"}}, envs: []*string{sp("specificenv"), nil}})
-	ah := find("Network.AdditionalHeaders")
-	show("map merge", loadReq{s: ah, files: [2]val{mapVal(map[string]string{"a": "1", "b": "2"}), mapVal(map[string]string{"b": "3", "c": "${VS_A}"})}, vars: map[string]string{"VS_A": "vv"}})
-	show("map file {}", loadReq{s: ah, files: [2]val{mapVal(map[string]string{"a": "1"}), mapVal(map[string]string{})}})
-	aa := find("HoneycombLogger.AdditionalAttributes")
-	show("map flag", loadReq{s: aa, flags: [][]string{{"k:v", "k2:v:2", "k3"}}, files: [2]val{mapVal(map[string]string{"a": "1"}), absent}})
-	show("map env", loadReq{s: aa, envs: []*string{sp("k:v,k2:v2,k:w")}, files: [2]val{mapVal(map[string]string{"a": "1"}), absent}})
-	am := find("Collection.AvailableMemory")
-	show("mem flag", loadReq{s: am, flags: [][]string{{"4096"}}, envs: []*string{sp("1000")}, files: [2]val{val{K: 'n', S: "77"}, absent}})
-	show("mem flag 0", loadReq{s: am, flags: [][]string{{"0"}}, envs: []*string{sp("1000")}, files: [2]val{val{K: 'n', S: "77"}, absent}})
-	show("locEnv", loadReq{s: la, locEnv: true, files: [2]val{strVal("1.2.3.4:80"), strVal("1.2.3.4:81")}})
-	cleanupWorkDir()
+}
+
+// genBase makes the 16 source combinations rotate across the shards of one tools/check run, not
+// only inside one `gen` process: tools/check starts shard i with `-seed S*1000003+i -cases N`, so
+// case c of shard i is global case i*N+c.  (Everything else in a case comes from the Rng.)
+func genBase() int {
+	var seed, cases uint64
+	for i := 2; i+1 < len(os.Args); i++ {
+		switch strings.TrimLeft(os.Args[i], "-") {
+		case "seed":
+			seed, _ = strconv.ParseUint(os.Args[i+1], 10, 64)
+		case "cases":
+			cases, _ = strconv.ParseUint(os.Args[i+1], 10, 64)
+		}
+	}
+	return int((seed % 1000003) * cases % 16)
+}
+
+func (comp) Gen(r *kit.Rng, maxLen int, tier string) kit.Case {
+	ensureTable()
+	combo := (genBase() + genCount) % 16
+	genCount++
+	var ops []string
+	for i := range table {
+		ops = append(ops, genLoad(r, &table[i], combo))
+	}
+	for i := 0; i < maxLen; i++ {
+		ops = append(ops, genExp(r))
+	}
+	return kit.Case{Header: fmt.Sprintf("combo=%d settings=%d", combo, len(table)), Ops: ops}
+}
+
+type runner struct{}
+
+func (comp) NewCase(h []string) kit.Runner {
+	ensureTable()
+	clearRefineryEnv()
+	return &runner{}
+}
+
+func (r *runner) Close() {}
+
+func withVars(vars map[string]string, f func()) {
+	var set []string
+	for k, v := range vars {
+		if err := os.Setenv(k, v); err != nil {
+			panic("setenv " + strconv.Quote(k) + ": " + err.Error())
+		}
+		set = append(set, k)
+	}
+	defer func() {
+		for _, k := range set {
+			os.Unsetenv(k)
+		}
+	}()
+	f()
+}
+
+func (r *runner) Do(op []string) (string, bool) {
+	switch op[0] {
+	case "exp":
+		s := parseVal(opKV(op, "s"))
+		x := parseVal(opKV(op, "X"))
+		if s.K != 's' || x.K != 'm' {
+			return "bad-op", true
+		}
+		var out string
+		withVars(x.toMap(), func() { out = config.VerifSettingsExpand(s.S) })
+		return strVal(out).tok(), true
+	case "load":
+		return r.load(op)
+	}
+	return "bad-op", true
+}
+
+func (r *runner) load(op []string) (string, bool) {
+	s := byPath[opKV(op, "p")]
+	if s == nil {
+		return "err no-such-setting", true
+	}
+	n, _ := strconv.Atoi(opKV(op, "n"))
+	if n != len(s.Opts) || opKV(op, "k") != s.Kind {
+		// the op was generated from a different tree (replay after a change): say so
+		return "err descriptor-changed", true
+	}
+	q := loadReq{s: s, validate: opKV(op, "m") == "v", locEnv: opKV(op, "loc") == "env", eqForm: opKV(op, "eq") == "1"}
+	var cands []string // string candidates the validator is asked about (str kind)
+	for i := 0; i < n; i++ {
+		f := parseVal(opKV(op, fmt.Sprintf("F%d", i)))
+		e := parseVal(opKV(op, fmt.Sprintf("E%d", i)))
+		if f.K == 'l' {
+			fl := f.L
+			if fl == nil {
+				fl = []string{}
+			}
+			q.flags = append(q.flags, fl)
+			if len(fl) > 0 {
+				cands = append(cands, fl[len(fl)-1])
+			}
+		} else {
+			q.flags = append(q.flags, nil)
+		}
+		if e.K == 's' {
+			ev := e.S
+			q.envs = append(q.envs, &ev)
+			cands = append(cands, ev)
+		} else {
+			q.envs = append(q.envs, nil)
+		}
+	}
+	q.files[0] = parseVal(opKV(op, "A"))
+	q.files[1] = parseVal(opKV(op, "B"))
+	x := parseVal(opKV(op, "X"))
+	q.vars = x.toMap()
+
+	res := runLoad(q)
+
+	if s.Kind == "str" {
+		for _, f := range q.files {
+			if f.K == 's' {
+				cands = append(cands, f.S)
+			}
+		}
+		cands = append(cands, "", s.Default.S)
+		if s.PH != "" {
+			cands = append(cands, s.PH)
+		}
+		if res.class == "ok" {
+			cands = append(cands, res.eff.S)
+		}
+		all := map[string]bool{}
+		withVars(q.vars, func() {
+			for _, c := range cands {
+				all[c] = true
+				all[config.VerifSettingsExpand(c)] = true
+			}
+		})
+		keys := make([]string, 0, len(all))
+		for k := range all {
+			keys = append(keys, k)
+		}
+		sort.Strings(keys)
+		for _, k := range keys {
+			b := 0
+			if singleBad(meta, s, strVal(k)) {
+				b = 1
+			}
+			kit.Ext("bad %s = %d", strVal(k).tok(), b)
+		}
+	} else if res.class == "ok" {
+		b := 0
+		if singleBad(meta, s, res.eff) {
+			b = 1
+		}
+		kit.Ext("bad %s = %d", res.eff.tok(), b)
+	}
+
+	switch res.class {
+	case "ok":
+		kit.Ext("getter %s", res.getter)
+		return "ok " + res.eff.tok(), true
+	case "rej":
+		var e []string
+		for _, x := range res.echoes {
+			if strings.HasPrefix(x, "?") {
+				e = append(e, "?")
+			} else {
+				e = append(e, kit.Enc(x))
+			}
+		}
+		out := "rej " + strings.Join(e, ",")
+		if len(e) == 0 {
+			out = "rej -"
+		}
+		if len(e) == 0 && len(res.other) > 0 {
+			// refused because of something that is not the setting under test
+			out += " other:" + kit.Enc(res.other[0])
+		}
+		return out, true
+	default:
+		if strings.HasPrefix(res.errText, "cmdline:") {
+			return "err cmdline", true
+		}
+		t := res.errText
+		if len(t) > 100 {
+			t = t[:100]
+		}
+		return "err other:" + kit.Enc(t), true
+	}
+}
+
+func facts() map[string]string {
+	ensureTable()
+	c := tableCounts(table)
+	out := map[string]string{
+		"settings_total":        strconv.Itoa(c["total"]),
+		"settings_cmdenv":       strconv.Itoa(c["cmdenv"]),
+		"settings_cmdenv_multi": strconv.Itoa(c["cmdenv_multi"]),
+		"settings_str":          strconv.Itoa(c["str"]),
+		"settings_plain_str":    strconv.Itoa(c["plain_str"]),
+		"settings_strs":         strconv.Itoa(c["strs"]),
+		"settings_smap":         strconv.Itoa(c["smap"]),
+		"settings_num":          strconv.Itoa(c["num"]),
+	}
+	var lists, all []string
+	for _, s := range table {
+		all = append(all, strconv.Quote(s.Path))
+		if s.Kind == "strs" && len(s.Opts) > 0 {
+			lists = append(lists, strconv.Quote(s.Path))
+		}
+	}
+	if len(lists) > 0 {
+		out["cmdenv_list_settings"] = "[" + strings.Join(lists, ", ") + "]"
+	}
+	out["settings_paths"] = "[" + strings.Join(all, ", ") + "]"
+	return out
 }
 
 func main() {
 	if len(os.Args) > 1 && os.Args[1] == "table" {
-		tab := buildTable()
-		for _, s := range tab {
+		ensureTable()
+		for _, s := range table {
 			var os_ []string
 			for _, o := range s.Opts {
 				os_ = append(os_, fmt.Sprintf("%s/--%s/%s/%q", o.Name, o.Long, o.Env, o.Delim))
 			}
 			fmt.Printf("%-45s %-5s %-18s d=%-28s doc=%-22s mt=%-12s echo=%v mask=%v ch=%v fm=%v opts=%s\n", s.Path, s.Kind, s.GoType, s.Default.tok(), s.Doc, s.MType, s.Echo, s.Mask, s.Choices, s.Formats, strings.Join(os_, " "))
 		}
-		fmt.Println(tableCounts(tab))
+		fmt.Println(tableCounts(table))
 		return
 	}
-	if len(os.Args) > 1 && os.Args[1] == "probe" {
-		clearRefineryEnv()
-		probe()
-		return
-	}
-	kit.Main(comp{}, nil)
+	defer cleanupWorkDir()
+	kit.Main(comp{}, facts)
 }
